@@ -61,7 +61,7 @@ fn main() {
             // C04 / C02 decoder closures
             let (a, b, bad) = mcx::xcheck::cross_check(mcx::e2::DecUnitModel { units: mcx::e2::key_units(false), prop: "C04" }, &caps);
             run("C04 key units".into(), a, b, bad);
-            let (a, b, bad) = mcx::xcheck::cross_check(mcx::e2::AccModel { bytes: (0u8..=255).collect(), prop: "C02" }, &caps);
+            let (a, b, bad) = mcx::xcheck::cross_check(mcx::e2::AccModel { bytes: (0u8..=255).collect(), prop: "C02", refine: true }, &caps);
             run("C02 Utf8Accum".into(), a, b, bad);
             // C06 screen closure (terminal emulator in the key)
             let cfg = base_cfg("C06", "screen cb=3 hb=4".to_string(), 3, 4, c06_alphabet(), Mon { term: true, invariants: true, ..Default::default() });
